@@ -78,7 +78,16 @@ func (f *FuncCtx) callEffects(call *ast.CallExpr, lt *loopTargets) {
 		for _, m := range c.Modifies {
 			hs, gs := f.resolveMod(c, m)
 			for _, h := range hs {
-				lt.heaps[strings.TrimPrefix(h, "fresh:")] = true
+				if strings.HasPrefix(h, "fresh:") {
+					// the callee writes this array only at objects allocated during the call: the loop then writes it only at
+					// objects that did not exist when the loop was entered (lazy frame mark instead of a havoc)
+					if lt.freshHeaps == nil {
+						lt.freshHeaps = map[string]bool{}
+					}
+					lt.freshHeaps[strings.TrimPrefix(h, "fresh:")] = true
+					continue
+				}
+				lt.heaps[h] = true
 			}
 			for _, g := range gs {
 				lt.ghost[g] = true
